@@ -16,13 +16,15 @@ def run(r):
                 ("F2", 3, AB, 8, [(s + i) % 8 for i in range(2)], {"nameall": True}),
                 ("F3", 3, AB, 32, [(s + i) % 32 for i in range(2)], {"nameall": True}),
                 ("OPT", 3, AB, 1, [0], {"nameall": True}), ("OPT", 3, AB, 1, [0], {}),
-                ("LINES", 5, ABN, 1, [0], {"nameall": True}), ("LINES", 4, ABN, 1, [0], {})]
+                ("LINES", 5, ABN, 1, [0], {"nameall": True}), ("LINES", 4, ABN, 1, [0], {}),
+                ("SEPC", 5, [97, 98, 120], 1, [0], {"nameall": True}), ("SEPC", 4, [97, 98, 120], 1, [0], {})]
         rnd = [(400, dict(maxlen=6, named=1, productive=1)), (300, dict(maxlen=6, named=0, productive=1, seed_off=1)),
                (200, dict(maxlen=5, named=2, productive=1, base=0, seed_off=2))]
     else:
         fams = [("CAT", 3, ABN, 2, [s % 2], {"nameall": True}), ("F1", 3, AB, 48, [(s + 21) % 48], {"nameall": True}),
                 ("NM", 3, AB, 24, [(s + 9) % 24], {}),
-                ("OPT", 3, AB, 2, [s % 2], {"nameall": True}), ("LINES", 4, ABN, 1, [0], {"nameall": True})]
+                ("OPT", 3, AB, 2, [s % 2], {"nameall": True}), ("LINES", 4, ABN, 1, [0], {"nameall": True}),
+                ("SEPC", 4, [97, 98, 120], 2, [s % 2], {"nameall": s % 4 < 2})]
         rnd = [(60, dict(maxlen=5, named=1, productive=1)), (60, dict(maxlen=5, named=0, productive=1, seed_off=1))]
     parsefam.run_plan(r, {"props": ["C06"], "families": fams, "random": rnd})
     r.rule = ("every failing Sentence parse of the explored (grammar, input) pairs, every Any/Choice named (equality clause) and unnamed (bound clause); "
